@@ -413,6 +413,15 @@ def run(ctx, out, tier):
     check_search(ctx, out)
     check_affects(ctx, out)
     check_prefix(ctx, out)
+    # "a block counts as modified exactly when the diff touches it": the per-block decision table and
+    # its statelessness (shared with C02)
+    from rules.C02 import check_filter
+    from rules.C12 import file_parser
+    fp = file_parser(ctx)
+    if fp is None:
+        out.inst("C01.filter", 0, 8, note="file parser not found")
+    else:
+        check_filter(ctx, out, fp, rule="C01.filter")
     bodies = [b for b in ctx.reachable_bodies() if b.id.startswith("blockwatch::diff_parser::") or "validators::affects" in b.id or b.id.startswith("blockwatch::blocks::") or b.id.startswith("bwbin::")]
     shared.sh_err(ctx, out, bodies, floor=40)
     shared.sh_main(ctx, out)
